@@ -13,9 +13,12 @@ echo "== demo on clean tree"; run_demo; c1=$?
 git apply "$d/patch.diff" || { echo "patch does not apply"; exit 2; }
 echo "== demo on patched tree"; run_demo; c2=$?
 echo "== stable baseline on patched tree"
-timeout 3000 /venv/bin/python -m pytest -q -p no:cacheprovider --timeout=900 --continue-on-collection-errors -n ${NPROC:-8} --junitxml=/tmp/junit_seed.$$.xml >/dev/null 2>&1
-/venv/bin/python /verif/tools/cmpbase.py /tmp/junit_seed.$$.xml | head -5; c3=$?
-rm -f /tmp/junit_seed.$$.xml
+# the two stable tests that time out on a loaded machine run alone afterwards (same tree, same patch)
+SLOW="test/emu_base/test_algebra.py::test_zip_right_step_mpompo_accuracy test/emu_mps/test_hamiltonian.py::test_differentiation"
+timeout 3000 /venv/bin/python -m pytest -q -p no:cacheprovider --timeout=900 --continue-on-collection-errors -n ${NPROC:-8} --junitxml=/tmp/junit_seed.$$.xml $(for t in $SLOW; do echo --deselect $t; done) >/dev/null 2>&1
+OMP_NUM_THREADS=4 timeout 3000 /venv/bin/python -m pytest -q -p no:cacheprovider --timeout=2400 --junitxml=/tmp/junit_seed2.$$.xml $SLOW >/dev/null 2>&1
+/venv/bin/python /verif/tools/cmpbase.py /tmp/junit_seed.$$.xml /tmp/junit_seed2.$$.xml | head -5; c3=$?
+rm -f /tmp/junit_seed.$$.xml /tmp/junit_seed2.$$.xml
 git checkout -q -- . ; git clean -fdq -e __pycache__
 echo "clean_demo_rc=$c1 patched_demo_rc=$c2" | tee "$d/confirm.txt"
 [ $c1 -eq 0 ] && [ $c2 -ne 0 ] && echo CONFIRMED-DEMO
